@@ -456,7 +456,13 @@ def tlsdialParts (args : List String) : Option (Bool × VCert) :=
   match splitGroups args with
   | [certToks, blk] =>
     let host := toHex "127.0.0.1".toUTF8.toList
-    (parseVCert (blk ++ certToks ++ [s!"hosts={host}/255", s!"connected={host}/255"])).map fun v => (kvTok certToks "ca" != some "other", v)
+    let other := toHex "127.0.0.2".toUTF8.toList
+    -- the block may name a second host (extra=before|after) that is never reached: the name check is against the host connected to
+    let hosts := match kvTok blk "extra" with
+      | some "before" => s!"hosts={other}/255,{host}/255"
+      | some "after" => s!"hosts={host}/255,{other}/255"
+      | _ => s!"hosts={host}/255"
+    (parseVCert (blk ++ certToks ++ [hosts, s!"connected={host}/255"])).map fun v => (kvTok certToks "ca" != some "other", v)
   | _ => none
 
 def tlsdialModel (args tr : List String) : String :=
